@@ -1,7 +1,7 @@
 (* C12: covariance.  Part B: numpy.rot90 (as built from flip and transpose) moves the value of
    source cell i to the target cell rot_index i.  Part A (scalar core): along one axis the centre
    of the target cell is the image of the centre of the source cell. *)
-From DF Require Import Prelude FieldK NDArray Region Mesh Rotate90 ListLemmas QLemmas C12_rot.
+From DF Require Import Prelude Constants_gen FieldK NDArray Region Mesh Rotate90 ListLemmas QLemmas C12_rot.
 Open Scope Q_scope.
 
 (* where cell i goes: the forward index map of a rotation by k quarter turns from axis a to axis b *)
@@ -72,4 +72,37 @@ Proof.
   pose proof (Hr a Ha) as Hx. pose proof (Hr b Hb) as Hy. pose proof (Hr j Hj) as Hjj.
   unfold rot_index, rot90_shape, swap_nth. rewrite <- (odd_mod4 k).
   destruct (mod4_cases k) as [H|[H|[H|H]]]; rewrite H; cbn [Z.odd]; nthsolve.
+Qed.
+
+(* ---------- Part A: one axis ---------- *)
+Lemma Qminmax_lt u v : u < v -> Qmin u v == u /\ Qmax u v == v.
+Proof. intros H. split; [apply Q.min_l|apply Q.max_r]; lra. Qed.
+Lemma Qminmax_gt u v : v < u -> Qmin u v == v /\ Qmax u v == u.
+Proof. intros H. split; [apply Q.min_r|apply Q.max_l]; lra. Qed.
+
+(* orientation kept: u |-> T + (u - Ru); the cell index is kept *)
+Lemma axis_keep (a b T Ru u v : Q) (nz idx : Z) :
+  a < b -> (0 < nz)%Z -> u == T + (a - Ru) -> v == T + (b - Ru) ->
+  i2p1 (Qmin u v) (cell_of (Qmin u v) (Qmax u v) nz) idx
+  == T + (i2p1 a (cell_of a b nz) idx - Ru).
+Proof.
+  intros Hab Hn Hu Hv.
+  destruct (Qminmax_lt u v) as [Hmin Hmax]; [lra|].
+  unfold i2p1, cell_of. rewrite Hmin, Hmax, Hu, Hv.
+  assert (Hnz : ~ inject_Z nz == 0) by (pose proof (inject_Z_pos nz Hn); lra).
+  field. exact Hnz.
+Qed.
+
+(* orientation reversed: u |-> T - (u - Ru); cell idx goes to n-1-idx *)
+Lemma axis_flip (a b T Ru u v : Q) (nz idx : Z) :
+  a < b -> (0 < nz)%Z -> u == T - (a - Ru) -> v == T - (b - Ru) ->
+  i2p1 (Qmin u v) (cell_of (Qmin u v) (Qmax u v) nz) (nz - 1 - idx)
+  == T - (i2p1 a (cell_of a b nz) idx - Ru).
+Proof.
+  intros Hab Hn Hu Hv.
+  destruct (Qminmax_gt u v) as [Hmin Hmax]; [lra|].
+  unfold i2p1, cell_of. rewrite Hmin, Hmax, Hu, Hv.
+  assert (Hnz : ~ inject_Z nz == 0) by (pose proof (inject_Z_pos nz Hn); lra).
+  unfold Zminus. rewrite !inject_Z_plus, inject_Z_opp. unfold half_cell.
+  field. exact Hnz.
 Qed.
